@@ -119,8 +119,10 @@ CLAIMS["C05"] = dict(
     text="Proof: rows_spec (n = k when D is k steps up to rounding, 1 when D < dt); keyring_closed_form / flush_exact / no_early_release / occupancy_bound for every n >= 1 and every inflow history by induction on time; "
          "the abstract keyring is proved to be what Engine.updateComps does to a timed compartment (keyring_refines_engine, timed_step, tlink_keeps_row, untimed_restarts, group_step), and the closed forms are lifted to every "
          "reachable state of Engine.step (engine_flush_exact, engine_release_exact, engine_occupancy_bound_general, engine_group_release_exact). The allocated row count of real models is compared with the model over an exhaustive "
-         "(k, dt) table with D formed in floating point; mode B on duration-group models; impulse-response oracle on the implementation.",
-    note="closed forms for groups containing a junction or with ordinary outflows leaving the group are covered by the one-step theorems + correspondence, not by a closed form.",
+         "(k, dt) table with D formed in floating point; mode B on duration-group models; impulse-response oracle on the implementation. Groups whose members are linked through junctions of the group (plain with normalised "
+         "proportions, residual, chained): ClosedGroupJ, group_step_junctions, engine_group_release_exact_junctions, group_rows_recorded for every reachable state; the same statements are evaluated on the implementation's arrays "
+         "for every generated group that satisfies the driver-checked hypothesis (group-shift oracle).",
+    note="groups with ordinary outflows leaving the group, or with row counts differing between populations, are covered by the one-step theorems + correspondence, not by a closed form.",
     design="8.C05")
 
 CLAIMS["C10"] = dict(
@@ -151,12 +153,14 @@ CLAIMS["C08"] = dict(
     design="8.C08")
 
 CLAIMS["C13"] = dict(
-    technique="Lean 4 decision-logic model of the per-step parameter pipeline with programs (Atomica.Params) + parameter-step refinement against Model.update_pars and Result.get_coverage/get_alloc (mode C)",
+    technique="Lean 4 decision-logic model of the per-step parameter pipeline with programs (Atomica.Params) and a closed-loop model of whole simulations with programs (Atomica.ClosedProg) + parameter-step refinement against Model.update_pars and Result.get_coverage/get_alloc (mode C) and whole-trajectory comparison",
     text="Proof: program_value (active and targeted => clip(convert(outcome(coverage of this step)))), coverage_from_spending / coverage_overwrite, the three unit conversions, frame / frame_inactive (untargeted or outside start/stop: "
          "as without programs), report_eq_used / report_capacity / report_alloc (what the finished Result reports is what the loop used, when no target is a junction; junction_gap witness), number_units_roundtrip. "
          "For EVERY (parameter, population, time index) of processed models - generated with functions, limits, calibration factors and program sets, and library demos with instructions - the stored value is compared with the model; "
-         "ProgramSet.get_outcomes is wrapped to record in-loop coverage and program values, which are compared with the model and with Result.get_coverage / get_alloc.",
-    note="parameter functions, exp and covout outcomes are oracle inputs (their own semantics are C19/C11/C12); derivative parameters and junction targets excluded by hypothesis and counted.",
+         "ProgramSet.get_outcomes is wrapped to record in-loop coverage and program values, which are compared with the model and with Result.get_coverage / get_alloc. "
+         "Closed loop with programs (ClosedProg.simulate, from the specification alone): closedprog_sets_targets(_number/_perTime/_other/_run), eligible_of_state, coverage_of_state / coverage_of_overwrite, closedprog_untargeted_rule, "
+         "closedprog_is_closed_before_start, closedprog_after_stop and the lifted L1 theorems are proved for every specification and run length; every stock row, link flow and parameter value of generated models with program sets is compared at every index.",
+    note="in the per-step model parameter functions, exp and covout outcomes are oracle inputs (their own semantics are C19/C11/C12); derivative parameters and junction targets excluded by hypothesis and counted. In the closed loop saturation (exp) is not modelled (program sets with saturation are counted and skipped there).",
     design="8.C13")
 CLAIMS["C06"]["text"] = ("Proof: (series) interp_knot/between/outside/single/assumption, previous_*, insert_wf/insert_spec/clean_sorted, previous_prefix for all series; (pipeline) precedence_program/function/data/skip/aggregation, "
     "data_scaled, clip_before_use, evalStep_fixpoint (topological order => every function parameter equals the clip of its function on the final same-step values of its dependencies), with the faithful evalOneCurrent proved equal to the "
@@ -170,7 +174,8 @@ CLAIMS["C09"] = dict(
          "(the longer run restricted to the shorter grid is the shorter run), gating_before_start / gating_after_stop(_data), previous_prefix_many (stepped series that state the value in force), scenario_prefix / scenario_agreeAt "
          "(ParameterScenario.get_parset keeps the baseline at every grid time before Y and does not skip the function there), and the no_effect_before_start corollaries per intervention kind. Baseline and intervention runs are paired on "
          "generated models and library demos for program start/stop years, spending/capacity/coverage overwrites, parameter scenarios (linear and stepped; data, function, transfer and interaction parameters), Y on and off the grid, "
-         "and every output before Y must be identical; end-year extension is compared to 1e-12.",
+         "and every output before Y must be identical; end-year extension is compared to 1e-12. Closed loop with programs: closedprog_is_closed_before_start / closedprog_prefix_before_start / closedprog_stock_at_start / "
+         "closedprog_instructions_agree_before / closedprog_after_stop for every specification and run length, with whole-trajectory comparison against real runs.",
     note="precompute/dynamic classification of parameters is not modelled (pairs where it differs are counted and still compared exactly); pchip/callable smoothing outside the model.",
     design="8.C09")
 
